@@ -21,6 +21,7 @@ RULE = (
     "amplitudes (DKW), (3) law of the wave vectors through E[(1/N) sum cos(k.h)] = rho(h) (Hoeffding for iid inversion samples, 7-sigma "
     "over independent seeds for MCMC), (4) bias bound 2/sqrt(N) at N and 4N, (5) Fourier: deterministic spectral-sum identity and "
     "discretisation allowance, (6) end-to-end ensemble moments of actual SRF outputs"
+    " Also: models reached through a dimension change (generator samples vs fresh model); user-requested inversion sampling where the cdf is inverted numerically; nugget noise on 4000 points; ensembles on positions stored once; unrotated anisotropic models."
 )
 ASSUMPTIONS = [
     "non-asymptotic bounds (Hoeffding, DKW) at a total false-alarm budget of 1e-9 per run; 7-sigma tests on independent per-seed means",
